@@ -49,3 +49,9 @@ class RowNumber(series.Window.Function):
     """
 
     kind: kindmod.Integer = kindmod.Integer()
+
+    def __eq__(self, other):
+        return other.__class__ is self.__class__
+
+    def __hash__(self):
+        return hash(self.__class__)
